@@ -2,6 +2,7 @@ import GeomV.C07.Spec
 import GeomV.C07.JsonText
 import GeomV.C07.ModelIO
 import GeomV.C07.JsonCost
+import GeomV.C07.ModelStream
 /-!
 Driver for C07.  `geomv_c07 judge` reads `<input> => <what the implementation did>` lines and prints
 one verdict per line:
@@ -107,6 +108,26 @@ def predStream (bs : Bytes) (e : REnd) : Pred :=
   | .ok g => { cls := "ok", geom := some g, cost := r.cost }
   | .error .reader => { cls := "reader", cost := r.cost }
   | .error (.wkb e) => { cls := errName e, cost := r.cost }
+
+/-- `wkb.Read` on a scripted reader whose errors need not be sticky (`wkbn` lines): the program
+`readP` on the script, `io.ReadFull` modelled literally; EOF and ErrUnexpectedEOF are told apart -/
+def predAny (s : List Ev) (fin : RErr) : Pred :=
+  let r := streamAnyC fixed s fin
+  match r.res with
+  | .ok g => { cls := "ok", geom := some g, cost := r.cost }
+  | .error (.reader .custom) => { cls := "reader", cost := r.cost }
+  | .error (.reader .eof) => { cls := "eof", cost := r.cost }
+  | .error (.reader .unexpectedEOF) => { cls := "ueof", cost := r.cost }
+  | .error (.wkb e) => { cls := errName e, cost := r.cost }
+
+def rerrOf (c : Char) : Option RErr :=
+  if c = 'c' ∨ c = 'C' then some .custom else if c = 'e' ∨ c = 'E' then some .eof
+  else if c = 'u' ∨ c = 'U' then some .unexpectedEOF else none
+
+def parseEv (t : String) : Option Ev :=
+  match t.toList with
+  | k :: _ => (hexToBytes (t.drop 1).toString).map fun bs => ⟨bs, rerrOf k⟩
+  | [] => none
 
 def predJ (r : CM Fault BGeom) : Pred :=
   match r.res with
@@ -222,6 +243,10 @@ def parseCase (lhs : Tok) : Option Case :=
   | ["wkbr", _, h] => (hexToBytes (h.drop 1).toString).map fun bs => ⟨"wkbr", .wkb, bs.length, predWkb bs, false, none⟩
   | ["wkbs", m, _, h] => (hexToBytes (h.drop 1).toString).map fun bs =>
       ⟨"wkbs", .wkb, bs.length, predStream bs (if m.startsWith "C" || m.startsWith "X" then .custom else .eof), false, none⟩
+  | "wkbn" :: f :: evs =>
+    match evs.mapM parseEv, f.toList.head?.bind rerrOf with
+    | some s, some fin => some ⟨"wkbn", .wkb, (dataOf s).length, predAny s fin, false, none⟩
+    | _, _ => none
   | ["hex", h] => (hexToBytes (h.drop 1).toString).map fun bs =>
       ⟨"hex", .hex, bs.length, predHex (bs.map fun b => Char.ofNat b.toNat), false, none⟩
   | ["json", h] => (hexToBytes (h.drop 1).toString).map fun bs => ⟨"json", .json, bs.length, predJ (decodeJSON bs), false, some (jsonAllocModel bs)⟩
